@@ -8,6 +8,7 @@ from sklearn.utils._param_validation import Interval, StrOptions
 from sklearn.utils.extmath import softmax
 
 from ._base_sparse import _path, check_groups
+from .._constraints import _validate_data
 from ._prox_grad import group_mlp_prox_grad, mlp_prox_grad
 from ..gemini import MMDGEMINI
 from ..mlp._mlp_geminis import MLPModel
@@ -203,7 +204,7 @@ class SparseMLPModel(MLPModel):
         return np.linalg.norm(self.W_skip_, axis=1, ord=2).sum()
 
     def fit(self, X, y=None):
-        self._validate_data(X)
+        _validate_data(self, X)
         self.groups_ = check_groups(self.groups, X.shape[1])  # Intercept to check that group forms a partition
         return super().fit(X, y)
 
